@@ -422,12 +422,36 @@ pub fn exec(st: &mut St, cmd: &str) -> String {
 }
 
 /// Run a generated case: header + commands, executing each.
+thread_local! {
+    /// file that always names the command being executed (read by ./check after a timeout)
+    pub static CURRENT_FILE: std::cell::RefCell<Option<String>> = std::cell::RefCell::new(None);
+}
+
+fn note_current(header: &str, done: &[(String, String)], cmd: &str) {
+    CURRENT_FILE.with(|f| {
+        if let Some(p) = f.borrow().as_ref() {
+            let mut s = format!("{header}\n");
+            for (c, o) in done {
+                s.push_str(&format!("{c} | {o}\n"));
+            }
+            s.push_str(&format!("{cmd} | HANG\n"));
+            let _ = std::fs::write(p, s);
+        }
+    });
+}
+
 pub fn run_case(tr: &mut Trace, header: (&str, u64, usize, &str), cmds: &[String]) {
     tr.case(header.0, header.1, header.2, header.3);
+    let head = format!("case {}:{}:{} {}", header.0, header.1, header.2, header.3);
     let mut st = St::default();
+    let mut done: Vec<(String, String)> = Vec::new();
     for c in cmds {
+        note_current(&head, &done, c);
         let obs = exec(&mut st, c);
         tr.line(c, &obs);
+        if done.len() < 64 {
+            done.push((c.clone(), if obs.len() > 4000 { String::new() } else { obs }));
+        }
     }
 }
 
